@@ -61,6 +61,7 @@ struct C09 : RBase {
         case 10: st = "cw = " + std::string(r.chance(0.5) ? "oset(cw, " : "oset3(cw, ") + v + ");"; break;
         default: st = "forall rw in " + std::string(r.chance(0.5) ? "cn" : "cq") + " loop rw = " + v + "; break; end loop;"; break;
         }
+        if (r.chance(0.08)) st = "forall $pe" + std::to_string(i) + " in " + t + " loop print 1; end loop;";   // a type-protected name as iterator: refused at run time, nothing may stay locked
         U.push_back({raw(st)});
       }
       U.push_back({raw("print cn.count() ct.count() cd.count() cq.count() ci.count() cw.count();")});
@@ -94,7 +95,7 @@ struct C09 : RBase {
     int n = (int)r.range(6, 30);
     for (int i = 0; i < n; ++i) {
       std::vector<json> u; mixable = false; null_position = false;
-      switch (r.below(24)) {
+      switch (r.below(25)) {
       case 0: case 1: u.push_back(print({slit("at:"), mth("at", var("ca", "tabint"), {position("ca", "tabint")})})); break;
       case 2: case 3: u.push_back(doit(mth("put", var("ca", "tabint"), {position("ca", "tabint"), intarg()}, "tabint"))); break;
       case 4: case 5: u.push_back(doit(mth("insert", var("ca", "tabint"), {position("ca", "tabint"), intarg()}, "tabint"))); break;
@@ -113,7 +114,16 @@ struct C09 : RBase {
       case 18: u.push_back(json{{"k", "expect_parse_error"}, {"v", "do ca.put(0, \"str\");"}}); break;
       case 19: u.push_back(json{{"k", "expect_parse_error"}, {"v", "do cs.concat(5);"}}); break;
       case 20: u.push_back(json{{"k", "expect_parse_error"}, {"v", r.chance(0.5) ? "do cu.set@1(\"str\");" : "do cu.set@9(1);"}}); break;
-      case 21: u.push_back(json{{"k", "expect_parse_error"}, {"v", r.chance(0.5) ? "forall zq in ca loop do ca.concat(1); end loop;" : "forall zq in ca loop do ca.delete(0); end loop;"}}); break;
+      case 21: { static const char* LOCKED[] = {"forall zq in ca loop do ca.concat(1); end loop;", "forall zq in ca loop do ca.delete(0); end loop;",
+                   // the lock of the outer traversal must survive an inner traversal of the same table
+                   "forall zq in ca loop forall zr in ca loop print zr; end loop; do ca.delete(0); end loop;", "forall zq in ca loop forall zr in ca loop print zr; end loop; do ca.concat(zq); end loop;",
+                   "forall zq in ca loop forall zr in ca loop print zr; end loop; ca = tab(1, 1); end loop;", "forall zq in ca loop forall zr in ca loop forall zs in ca loop print zs; end loop; end loop; do ca.insert(0, 5); end loop;"};
+                 u.push_back(json{{"k", "expect_parse_error"}, {"v", LOCKED[r.below(6)]}}); break; }
+      case 24: { // a string constant of the program text as the receiver, evaluated repeatedly
+        json recv = slit("abc"); json st;
+        switch (r.below(4)) { case 0: st = print({mth("concat", recv, {ilit(33)}, "str")}); break; case 1: st = print({mth("insert", recv, {ilit(r.range(0, 3)), r.chance(0.5) ? ilit(65) : slit("zz")}, "str")}); break;
+                              case 2: st = print({mth("put", recv, {ilit(r.range(0, 2)), ilit(66)}, "str")}); break; default: st = print({mth("delete", recv, {ilit(r.range(0, 2))}, "str")}); break; }
+        json loop{{"k", "for"}, {"n", "zk"}, {"a", ilit(1)}, {"b", ilit(3)}, {"step", nullptr}, {"dir", ""}}; loop["body"] = json::array({st}); u.push_back(loop); break; }
       // a traversed table cannot change length: mutation attempts reach copies only
       case 22: u.push_back(forall("zq", var("ca", "tabint"), {let("cb", var("ca", "tabint")), doit(mth("concat", var("cb", "tabint"), {ilit(1)}, "tabint")), json{{"k", "put"}, {"es", arr({call("grow", {var("ca", "tabint")}), slit(" ")})}}})); u.push_back(print({slit("")})); break;
       default: u.push_back(forall("zq", var("ca", "tabint"), {let("zq", bin("+", var("zq"), ilit(1)))}, r.chance(0.5) ? "desc" : "")); break;
